@@ -7,5 +7,8 @@ SPECIFICATION Spec
 INVARIANT TypeOK
 INVARIANT Final
 INVARIANT PrefixSorted
+INVARIANT ScanFinal
+INVARIANT ScanBest
 INVARIANT ExportFinal
+INVARIANT ExportScan
 CHECK_DEADLOCK FALSE
